@@ -290,13 +290,29 @@ func (f *unitFrame) call(c *ssa.Call) unit {
 	}
 	last := func() unit { return f.of(args[len(args)-1]) }
 	switch {
-	case strings.HasSuffix(name, "time.Time.UnixMilli"), strings.HasSuffix(name, "time.Duration.Milliseconds"):
+	case strings.HasSuffix(name, "time.Duration.Milliseconds"), strings.HasSuffix(name, "time.Duration.Seconds"), strings.HasSuffix(name, "time.Duration.Microseconds"), strings.HasSuffix(name, "time.Duration.Minutes"), strings.HasSuffix(name, "time.Duration.Hours"):
+		// a duration (already an exact number of nanoseconds) rendered in a coarser scale: the sub-unit part is dropped,
+		// exactly like d / time.Millisecond - what follows no longer sees it, and a short duration becomes zero. (Instants
+		// rendered with UnixMilli on both sides of a difference are the documented resolution of the linear formula and
+		// are not affected.)
+		{
+			short := name[strings.LastIndex(name, ".")+1:]
+			f.e.issue(c.Pos(), "a duration is cut down to whole units by Duration.%s() before it is used: the part below that resolution is lost", short)
+		}
+		switch {
+		case strings.HasSuffix(name, "Milliseconds"):
+			return uMs
+		case strings.HasSuffix(name, "Seconds"):
+			return uS
+		}
+		return uUnk
+	case strings.HasSuffix(name, "time.Time.UnixMilli"):
 		return uMs
 	case strings.HasSuffix(name, "time.Time.UnixNano"), strings.HasSuffix(name, "time.Time.Sub"), strings.HasSuffix(name, "time.Duration.Nanoseconds"), strings.HasSuffix(name, "time.Since"):
 		return uNs
-	case strings.HasSuffix(name, "time.Time.Unix"), strings.HasSuffix(name, "time.Duration.Seconds"):
+	case strings.HasSuffix(name, "time.Time.Unix"):
 		return uS
-	case strings.HasSuffix(name, "time.Time.UnixMicro"), strings.HasSuffix(name, "time.Duration.Microseconds"), strings.HasSuffix(name, "time.Duration.Minutes"), strings.HasSuffix(name, "time.Duration.Hours"):
+	case strings.HasSuffix(name, "time.Time.UnixMicro"):
 		return uUnk
 	case strings.HasSuffix(name, "time.Time.Add"):
 		u := last()
